@@ -41,7 +41,7 @@ ENVELOPE_FIELDS = (
     "ctl_index", "gain_pct", "velocity",
 )
 SAMPLER_FIELDS = (
-    "instrument_name", "max_version", "volume_old", "ins_finetune", "ins_relative_note",
+    "instrument_name", "version", "max_version", "volume_old", "ins_finetune", "ins_relative_note",
     "editor_cursor", "editor_selected_size", "unused1", "unused2", "unused3", "unused4", "unused5", "unused6",
 )
 
@@ -261,3 +261,54 @@ def first_index(a, b):
                 return i
         return min(len(a), len(b))
     return None
+
+
+# ---------------------------------------------------------------------------
+# cross-check of the allow-list against vars(obj): what is NOT in the snapshot, and why
+
+EXCLUSIONS = {
+    "controller_values": "covered as ctl.<name>",
+    "option_values": "covered as opt.<name> (through the descriptors, i.e. the logical value)",
+    "controller_midi_maps": "covered as cmid.<name>",
+    "in_links": "covered as links.in", "in_link_slots": "covered as links.in_slots",
+    "out_links": "covered as links.out", "out_link_slots": "covered as links.out_slots",
+    "index": "position in the project's module list (the snapshot path carries it)",
+    "parent": "back reference to the owning project",
+    "controllers_loaded": "loader bookkeeping (which controllers have been assigned)",
+    "_reader_chnk": "loader bookkeeping",
+    "_visualization": "covered as visualization",
+    "is_legacy": "loader bookkeeping (Sampler)", "legacy_chunks": "loader bookkeeping (Sampler)", "_unknown_0x101": "loader bookkeeping (Sampler)",
+    "samples": "covered as sample.<i>.* and sample_slots", "effect_control_envelopes": "covered as effect_control_envelope<i>.*",
+    "volume_envelope": "covered", "panning_envelope": "covered", "pitch_envelope": "covered", "note_samples": "covered", "effect": "covered",
+    "harmonics": "derived view of the four harmonic arrays (covered as harmonic_*)", "h_freq_hz": "mirror of the selected harmonic",
+    "mappings": "covered as mapping.<i> / mappings", "curve": "covered", "user_defined": "covered as ctl.user_defined_<n> and label.<i>",
+    "project": "covered recursively (MetaModule) / back reference (Pattern)",
+    "drawn_waveform": "covered", "custom_waveform": "covered", "nv_curve": "covered", "vv_curve": "covered", "np_curve": "covered",
+    "harmonic_freqs": "covered", "harmonic_volumes": "covered", "harmonic_widths": "covered", "harmonic_types": "covered", "data": "covered",
+    "modules": "covered as mod.<i>", "patterns": "covered as pat.<i>", "output": "modules[0]", "metamodule": "back reference",
+    "sunvox_version": "the writer's constant", "loaded_sunvox_version": "loader bookkeeping", "_data": "covered as cells",
+}
+
+
+def catalogue_exclusions():
+    """-> {'excluded': {attr: reason}, 'unexplained': [type.attr, ...]}: every vars(obj) key of a
+    default-constructed object of every type that the snapshot does not cover by name."""
+    import rv.modules as M
+    from rv.pattern import Pattern
+    from rv.project import Project
+
+    objs = [c() for c in sorted(M.MODULE_CLASSES.values(), key=lambda c: c.__name__)] + [Project(), Pattern()]
+    excluded, unexplained = {}, []
+    for o in objs:
+        snap = snapshot(o)
+        names = set()
+        for path in snap:
+            names.update(x for x in path if isinstance(x, str))
+        for k in vars(o):
+            if k in names or k.lstrip("_") in names:
+                continue
+            if k in EXCLUSIONS:
+                excluded[k] = EXCLUSIONS[k]
+            else:
+                unexplained.append("%s.%s" % (type(o).__name__, k))
+    return {"excluded": dict(sorted(excluded.items())), "unexplained": sorted(unexplained)}
